@@ -30,3 +30,17 @@ Proof.
   split; [repeat constructor; simpl; intuition|].
   split; [reflexivity|]. vm_compute. congruence.
 Qed.
+
+(* F4: the cache key ignored output names and used renamed input names: two nodes wrapping one function
+   (same definition hash) with different output names get the same key for the same arguments. *)
+From HG Require Import Engine Cache.
+Example F4_cache_key_refuted :
+  exists (n1 n2 : node) (ins : dict val),
+    n_fn n1 = n_fn n2 /\ n_outputs n1 <> n_outputs n2 /\
+    cache_key_legacy true n1 ins = cache_key_legacy true n2 ins /\
+    cache_key true [] n1 ins <> cache_key true [] n2 ins.
+Proof.
+  exists (mk_node 1 [5] [7] 1 [] [] [] KFunc 9)%positive, (mk_node 2 [5] [8] 1 [] [] [] KFunc 9)%positive,
+         [(5%positive, VInt 1)].
+  split; [reflexivity|]. split; [discriminate|]. split; [reflexivity | discriminate].
+Qed.
